@@ -425,6 +425,7 @@ func (fr *Frame) applyContract(st *State, sp *FuncSpec, fn *ssa.Function, sig *t
 		}
 	}
 	pre := st.clone()
+	preLen := len(r.script)
 	// forget what the callee may modify
 	var mods map[string]bool
 	if sp.HasMod {
@@ -504,6 +505,14 @@ func (fr *Frame) applyContract(st *State, sp *FuncSpec, fn *ssa.Function, sig *t
 			continue
 		}
 		r.assume(st, f)
+	}
+	if fr.top && len(sp.Ensures) > 0 {
+		// vacuity guard: what the callee's contract promises must be consistent with what is known here
+		before := &Obligation{Name: r.oblName(r.spec.Name + ":cover:before." + short), Kind: "cover", Func: r.spec.Name, Text: "path to the call of " + short + " is feasible",
+			prefixLen: preLen, goal: pre.reach, isCover: true, run: r}
+		after := &Obligation{Name: r.oblName(r.spec.Name + ":cover:contract." + short), Kind: "cover", Func: r.spec.Name, Text: "the contract of " + short + " is consistent with the facts at its call site",
+			prefixLen: len(r.script), goal: st.reach, isCover: true, run: r, coverPre: before, mustHold: true}
+		r.obls = append(r.obls, after)
 	}
 	return res
 }
